@@ -279,7 +279,28 @@ fn expr(v: i64, rng: &mut Rng, d: &mut Defs, allow_defer: bool) -> (String, &'st
 			if v % 2 == 0 {(format!("{}*2", lit(v / 2, rng)), "product")}
 			else {match (v / 2).checked_mul(2) {Some(_) => (format!("({}*2 + {})", lit(v / 2, rng), v - (v / 2) * 2), "product"), None => (lit(v, rng), "literal")}}
 		},
-		5 => if v >= 0 && v.checked_mul(2).is_some() {(format!("({} << 1) / 2", lit(v, rng)), "shift")} else {(lit(v, rng), "literal")},
+		5 => if v >= 0 && v.checked_mul(2).is_some() && rng.chance(1, 2) {(format!("({} << 1) / 2", lit(v, rng)), "shift")} else
+		{
+			// spellings that rely on the documented precedence (no parentheses): * / % over + - over << >> over & over ^ over |
+			let (a, b, c) = (rng.range(0, 40), rng.range(1, 9), rng.range(1, 7));
+			let forms: [(i64, String); 8] = [
+				(a + b % c, format!("{a} + {b} % {c}")),
+				(a - b * c, format!("{a} - {b} * {c}")),
+				(a * b + c, format!("{a} * {b} + {c}")),
+				(a + b / c, format!("{a} + {b} / {c}")),
+				(a << (b % 4 + 1), format!("{a} << {} + 1", b % 4)),
+				(a | (b ^ (c & 3)), format!("{a} | {b} ^ {c} & 3")),
+				((a + b) >> 1, format!("{a} + {b} >> 1")),
+				(-a + b, format!("-{a} + {b}")),
+			];
+			let (fv, text) = &forms[rng.below(forms.len() as u64) as usize];
+			match v.checked_sub(*fv)
+			{
+				Some(d) if d >= 0 => (format!("({text}) + {d}"), "precedence"),
+				Some(d) => (format!("({text}) - {}", -(d as i128)), "precedence"),
+				None => (lit(v, rng), "literal"),
+			}
+		},
 		6 | 7 =>
 		{
 			d.n += 1;
